@@ -23,7 +23,8 @@ RULE = ("exhaustive enumeration of (ballot, assertion) pairs for each candidate 
         "with non-ASCII names) and RAIRE runs; non-trivial = the ballot ranks at least one of "
         "the assertion's two candidates; distinct = (n, ballot, assertion) / hash of file / hash of profile")
 REQUIRED = ["assort_pairs_compared", "assort_pairs_nontrivial", "exhaustive_tables", "reader_entries_compared",
-            "reader_files", "reapplied_NEB", "reapplied_NEN", "ballots_lacking_contest_compared", "ballots_on_a_reused_record", "reader_files_with_non_ascii_names"]
+            "reader_files", "reapplied_NEB", "reapplied_NEN", "ballots_lacking_contest_compared", "ballots_on_a_reused_record", "reader_files_with_non_ascii_names",
+            "contest_identifier_is_not_a_string", "ballot_mappings_not_stored_in_preference_order"]
 ASSUMPTIONS = ["rankings are duplicate-free (the property's quantifier)", "candidate ids are strings in both readers",
                "JSON mapping per the RAIRE documentation: WINNER_ONLY <-> NEB, IRV_ELIMINATION + already_eliminated <-> NEN"]
 EXHAUSTIVE = "c14.assort enumerates every partial ranking x ordered pair x eliminated set for each n listed in the counters"
